@@ -67,6 +67,16 @@ CHECKS.update({
               'Assumes a quire stage is the exact sum rounded once (C04) and * is the rounded product (C01).'), design='4/C18'),
 })
 
+CHECKS.update({
+    'C13': dict(level='other', technique='abstract interpretation per bound N on N-bit pattern cells + unit/layout dataflow (R8) + selector dependence slice (R5)',
+        text=('NaR/zero algebra, N==2 branches and guard cells of + - * / mul_add mul_sub sub_product sqrt round of PxE1<N>/PxE2<N> per bound N (quick: 8 widths, thorough: all 31); '
+              'exponent extraction and regime scaling must use the units of the decoding type; the kernel result must depend on the selector. N-bit rounding on the general path and the '
+              'PxE2<32>==P32E2 / PxE1<16>==P16E1 equivalences are NOT decided. 20 genuine defects of the generic kernels are listed as known findings.'), design='4/C13'),
+    'C14': dict(level='other', technique='abstract interpretation per bound N (and per (M,N) pair) on source cells + bit routing per regime cell for to_f64',
+        text=('Zero/NaR preservation, N==2 and saturation cells, integer heads of all generic-width conversions per bound N; to_f64 proved exact by routing for the analysed widths. '
+              'Truncation/rounding at bit N on the general path, from_f64 (float loop) and quire->PxE2 NOT decided. 13 genuine defects listed as known findings.'), design='4/C14'),
+})
+
 NOT_APPLICABLE = {
 }
 
